@@ -455,6 +455,9 @@ RULES = [("one-site", rule_one_site), ("spine-panics", rule_spine_panics), ("tre
          ("depth-units", rule_depth_units), ("legal-src", rule_legal_src)]
 # "legal" in "exactly one legal bestmove" rests on the legality filter
 RULES += engine.premise_rules("c01", ["filter", "probe"])
+# get_pv runs on the search thread before the bestmove line and asserts that it restored its scratch board: the line is
+# printed only if the walk takes back exactly the moves it played (C14.pv-legal)
+RULES += engine.premise_rules("c14", ["pv-legal"])
 
 
 def run(tier):
